@@ -393,6 +393,15 @@ class Engine:
                 else:
                     ch |= self.add(fid, dest["l"], dp, label, ("?", src, line))
             return ch
+        if w.endswith("::from_residual") and argt:
+            # the residual of `?` rebuilds the failure variant only: Err(From::from(e)) for a Result, None for an Option
+            dty = str(B.locals[dest["l"]].get("ty", ""))
+            if "option::Option<" in dty and not dp:
+                return ch
+            for (res, label, src) in argt[0]:
+                tail = res[2:] if res[:2] == ("@Err", "0") else ()
+                ch |= self.add(fid, dest["l"], dp + ("@Err", "0") + tail, label, ("?-residual", src, line))
+            return ch
         if m(UNWRAP):
             for (res, label, src) in argt[0]:
                 if res[:2] in (("@Ok", "0"), ("@Some", "0"), ("@+", "0")):
